@@ -290,6 +290,8 @@ func corpusTS() []*modSpec {
 		mk("ts-generic-named-containers", "package models\n\ntype S struct {\n\tA Seq[int]\n\tB Seq[string]\n\tC Dict[bool]\n\tD Dict[IdX]\n\tE Pair[int]\n\tF []Seq[int]\n}\n", modFile{"other.go", "package models\n\ntype IdX int64\n\ntype Seq[T any] []T\n\ntype Dict[V any] map[string]V\n\ntype Pair[T any] [2]T\n"}),
 		mk("ts-arrays-sharing-an-alias", "package models\n\ntype Small struct{ P [2]int }\ntype Wide struct{ P [2]int64 }\ntype F struct {\n\tA [3]float32\n\tB [3]float64\n\tC [2]uint8\n\tD [2]int\n\tE [2][2]int\n\tG [2][2]int16\n}\n"),
 		mk("ts-embedded-struct-reached-through-its-own-union", "package models\n\ntype U interface{ isU() }\n\ntype A struct {\n\tX int\n\tV U\n}\n\nfunc (A) isU() {}\n\ntype B struct {\n\tA\n\tY int\n}\n\ntype C struct {\n\tB\n\tZ string `json:\"z\"`\n}\n"),
+		mk("ts-string-enum-special-values", "package models\n\ntype Pattern string\n\nconst (\n\tDigits Pattern = \"\\\\d+\"\n\tQuote Pattern = \"say \\\"hi\\\"\"\n\tTab Pattern = \"a\\tb\"\n\tAccent Pattern = \"\u00e9t\u00e9\"\n)\n\ntype S struct {\n\tP Pattern\n\tL []Pattern\n}\n"),
+		mk("ts-string-enum-long-value", "package models\n\ntype Code string\n\nconst (\n\tShort Code = \"s\"\n\tLong Code = \"xxxxxxxxxxxxxxxxxxxxxxxxxxxxxxxxxxxxxxxxxxxxxxxxxxxxxxxxxxxxxxxxxxxxxxxxxxxxxxxxxxxxxxxxxx\"\n)\n\ntype S struct{ C Code }\n"),
 		mk("ts-shapes", "package models\n\nimport \"time\"\n\ntype ID int64\ntype Name string\ntype Ratio float64\ntype Flag bool\ntype Ints []int\ntype Grid [2][3]int\ntype ByName map[string]Ints\ntype ByID map[ID]Name\n\ntype E uint8\n\nconst (\n\tE1 E = 1\n\tE2 E = 2\n)\n\ntype Empty struct{}\n\ntype S struct {\n\tA ID\n\tB Name\n\tC Ratio\n\tD Flag\n\tE Ints\n\tF Grid\n\tG ByName\n\tH ByID\n\tI E\n\tJ Empty\n\tK time.Time\n\tL [0]int\n\tM map[E]bool\n\tN []Empty\n}\n"),
 		mk("ts-unions", "package models\n\nimport \"time\"\n\ntype U interface{ isU() }\ntype A struct {\n\tX int `json:\"x\"`\n\tS []string\n}\ntype B struct{ T time.Time }\ntype N int\ntype L []int\n\nfunc (A) isU() {}\nfunc (B) isU() {}\nfunc (N) isU() {}\nfunc (L) isU() {}\n\ntype S struct {\n\tV U `json:\"v\"`\n\tHidden int `json:\"-\"`\n\tunexp int\n\tW U\n\tName string\n}\n\ntype List []U\ntype Dict map[string]U\ntype ByID map[int]U\n\ntype Outer struct {\n\tInner S\n\tItems List\n\tD Dict\n\tI ByID\n\tMany []S\n}\n"),
 		mk("ts-generics", "package models\n\ntype IdUser int64\ntype IdGroup int64\n\ntype Holder struct {\n\tU Opt[IdUser]\n\tG Opt[IdGroup]\n\tN Opt[int]\n\tP Pair[string, IdUser]\n\tQ Pair[IdUser, string]\n\tL []Opt[IdGroup]\n}\n",
